@@ -228,7 +228,14 @@ def _run_ann(pid: str, tier: str, seed: int, spec: dict, scale: float = 1.0, sal
     return ann_stream.run(pid, tier, seed, spec, scale, salt)
 
 
-PROPS["C07"] = {"theorems": [], "run": _run_ann,
+PROPS["C07"] = {"theorems": ["C07_scalar_strict", "C07_scalar_default_complete", "C07_scalar_default_sound", "C07_any",
+                             "C07_none", "C07_list_step", "derive_scalar", "defaultCoerce_typed", "strict_scalar_iff"],
+                "level_note": "proved for `derive` (both resolvers): scalar annotations, Any, None, arbitrary classes (sound and "
+                              "complete against `hasType`, payload = the value where nothing coerces; the coercing types under "
+                              "`OracleTyped`), and the List[T] step (item sound+complete => list sound+complete, every fuel); "
+                              "dict / set / tuple / Literal / record / Maybe / Annotated forms and the glue over nested annotations "
+                              "are decided by the correspondence stream and the model-free isinstance-style oracle only",
+                "run": _run_ann,
                 "rule": "annotations generated from the supported grammar to depth 3 (generated dataclass / NamedTuple / "
                         "TypedDict classes with random fields, defaults, totality) x 6 (quick) / 12 (thorough) values each: "
                         "conforming, conforming except at one position, arbitrary; non-trivial = the derived validator "
